@@ -1005,6 +1005,7 @@ pub struct StoreProfile {
     pub far_apart: bool,
     pub drop_world: bool,
     pub faults: bool,
+    pub churn: bool,
 }
 
 fn gen_comps(rng: &mut Rng, kinds: &[usize], val: &mut i64) -> Vec<(usize, i64)> {
@@ -1034,6 +1035,15 @@ fn gen_simple_store_op(rng: &mut Rng, p: &StoreProfile, nlog: &mut usize, val: &
         if p.lazy { 3 } else { 0 }, if p.lazy { 1 } else { 0 }, if p.lazy { 2 } else { 0 }, if p.lazy { 2 } else { 0 }, if p.lazy && depth < 2 { 2 } else { 0 }, // lazy_ins, lazy_ins_all, lazy_rem, lazy_create, lazy_exec
         if p.rjoin { 3 } else { 0 }, 1, 1, // rjoin, del_all, create_iter
     ];
+    let churn_ws: [u32; 31] = [
+        if *nlog < 5 { 6 } else { 1 }, if *nlog < 5 { 2 } else { 0 }, 2, 14, 12, 8, 4, 4, 4, 6,
+        3, 1, 1, 1, 5, 4, 3,
+        0, 1,
+        2, 1, 1, 2,
+        0, 0, 0, 0, 0,
+        if p.rjoin { 2 } else { 0 }, 0, 0,
+    ];
+    let ws = if p.churn { churn_ws } else { ws };
     match rng.weighted(&ws) {
         0 => { *nlog += 1; Op::CreateW { atomic: false, dropped: rng.chance(1, 8), comps: gen_comps(rng, &p.kinds, val) } }
         1 => { *nlog += 1; Op::CreateW { atomic: true, dropped: rng.chance(1, 8), comps: gen_comps(rng, &p.kinds, val) } }
@@ -1079,8 +1089,8 @@ fn gen_simple_store_op(rng: &mut Rng, p: &StoreProfile, nlog: &mut usize, val: &
                 0 => RAct::Skip,
                 1 => RAct::Get,
                 2 => { let (derefs, write) = gen_dw(rng, val, null); RAct::GetMut { derefs, write } }
-                3 => RAct::GetOther(pick_slot(rng, *nlog)),
-                _ => { let (derefs, write) = gen_dw(rng, val, null); RAct::GetOtherMut { h: pick_slot(rng, *nlog), derefs, write } }
+                3 => RAct::GetOther(if rng.chance(1, 2) { rng.below((*nlog).max(1) as u64) as usize } else { pick_slot(rng, *nlog) }),
+                _ => { let (derefs, write) = gen_dw(rng, val, null); RAct::GetOtherMut { h: if rng.chance(1, 2) { rng.below((*nlog).max(1) as u64) as usize } else { pick_slot(rng, *nlog) }, derefs, write } }
             }).collect();
             Op::RJoin { k, mutable, acts }
         }
@@ -1131,7 +1141,7 @@ pub fn gen_store_script(rng: &mut Rng, len: usize, p: &StoreProfile) -> Vec<Op> 
         }
         if p.faults {
             let destroying = matches!(op, Op::Ins(..) | Op::Entry(_, _, EntryOp::OrInsert { .. }) | Op::DelNow(_) | Op::DelBatch(_) | Op::DelAll | Op::Clear(_) | Op::Maintain);
-            if destroying && rng.chance(1, 3) {
+            if destroying && rng.chance(1, if p.churn { 8 } else { 3 }) {
                 ops.push(Op::Fault(rng.below(4)));
                 ops.push(op);
                 ops.push(Op::Dump);
@@ -1155,15 +1165,17 @@ pub fn random_profile(rng: &mut Rng, focus: &str) -> StoreProfile {
     let mut kinds: Vec<usize> = Vec::new();
     while kinds.len() < nk { let k = *rng.pick(pool); if !kinds.contains(&k) { kinds.push(k); } }
     if focus == "many" { kinds = all.clone(); }
+    if focus == "churn" || focus == "faultchurn" { kinds = vec![if rng.chance(3, 5) { *rng.pick(&[1usize, 7, 10]) } else { rng.below(NUM_KINDS as u64) as usize }]; }
     StoreProfile {
         kinds,
-        lazy: focus != "fault" && (focus == "lazy" || rng.chance(1, 3)),
-        rjoin: focus == "rjoin" || (focus != "fault" && rng.chance(1, 4)),
+        lazy: focus != "fault" && focus != "churn" && focus != "faultchurn" && (focus == "lazy" || rng.chance(1, 3)),
+        rjoin: focus == "rjoin" || (focus != "fault" && focus != "faultchurn" && rng.chance(1, 4)),
         emit_toggle: focus == "tracked" && rng.chance(1, 3),
-        clear: focus != "tracked" && rng.chance(1, 2),
+        clear: focus == "churn" || focus == "faultchurn" || (focus != "tracked" && rng.chance(1, 2)),
         far_apart: focus == "far" || rng.chance(1, 30),
-        drop_world: focus == "ledger" || focus == "fault" || rng.chance(1, 4),
-        faults: focus == "fault",
+        drop_world: focus == "ledger" || focus == "fault" || focus == "faultchurn" || rng.chance(1, 4),
+        faults: focus == "fault" || focus == "faultchurn",
+        churn: focus == "churn" || focus == "faultchurn",
     }
 }
 
@@ -1189,22 +1201,24 @@ pub fn exhaustive_alphabet() -> Vec<Op> {
 
 /// Store alphabet for bounded-exhaustive storage histories on kind `k` (two entities).
 pub fn store_alphabet(k: usize) -> Vec<Op> {
+    // the zero-sized component of the null storage (kind 5) has the single value 0
+    let z = |v: i64| if k == 5 { 0 } else { v };
     vec![
-        Op::CreateW { atomic: false, dropped: false, comps: vec![(k, 7)] },
+        Op::CreateW { atomic: false, dropped: false, comps: vec![(k, z(7))] },
         Op::CreateW { atomic: true, dropped: false, comps: vec![] },
-        Op::Ins(k, 0, 1),
-        Op::Ins(k, 1, 2),
+        Op::Ins(k, 0, z(1)),
+        Op::Ins(k, 1, z(2)),
         Op::Rem(k, 0),
         Op::Rem(k, 1),
-        Op::GetMut { k, h: 0, derefs: 1, write: Some(3) },
-        Op::Entry(k, 1, EntryOp::OrInsert { v: 4, derefs: 0, write: None }),
+        Op::GetMut { k, h: 0, derefs: 1, write: Some(z(3)) },
+        Op::Entry(k, 1, EntryOp::OrInsert { v: z(4), derefs: 0, write: None }),
         Op::Entry(k, 0, EntryOp::Remove),
         Op::DelNow(0),
         Op::DelAtomic(1),
         Op::Maintain,
         Op::Drain(k, 1),
         Op::Clear(k),
-        Op::LazyIns(k, 0, 5),
+        Op::LazyIns(k, 0, z(5)),
         Op::LazyRem(k, 1),
     ]
 }
